@@ -219,7 +219,8 @@ class Effects:
             for f in self.sm.functions:
                 self._compute_var_roots(f)
                 rets = [n for n in walk_local(f.node, include_root=False) if isinstance(n, ast.Return)]
-                val = bool(rets) and all(r.value is not None and self.expr_roots(f, r.value) == {'fresh'} for r in rets)
+                vals = [r.value for r in rets if r.value is not None and not (isinstance(r.value, ast.Constant) and r.value.value is None)]
+                val = bool(vals) and all(self.expr_roots(f, v) == {'fresh'} for v in vals)
                 if val != self.returns_fresh[f]:
                     self.returns_fresh[f] = val
                     changed = True
@@ -229,13 +230,14 @@ class Effects:
             self._compute_var_roots(f)
 
     def _compute_var_roots(self, f: FuncInfo):
-        roots = self.roots[f]
-        # start from params only
-        for k in list(roots):
-            if k not in f.params:
-                del roots[k]
-        for _ in range(4):
-            before = {k: set(v) for k, v in roots.items()}
+        """Flow-insensitive roots of the local names: iterate `new = F(old)` from scratch (not accumulating), so that a default
+        taken while a name was still unbound does not stick."""
+        params = {k: set(v) for k, v in self.roots[f].items() if k in f.params}
+        old = dict(params)
+        for _ in range(8):
+            self.roots[f] = old
+            new = {k: set(v) for k, v in params.items()}
+            self._pass_target = new
             for n in walk_local(f.node, include_root=False):
                 if isinstance(n, ast.Assign):
                     r = self.expr_roots(f, n.value)
@@ -252,8 +254,14 @@ class Effects:
                             self._bind(f, i.optional_vars, {'fresh'}, None)
                 elif isinstance(n, ast.NamedExpr):
                     self._bind(f, n.target, self.expr_roots(f, n.value), n.value)
-            if before == roots:
+            self._pass_target = None
+            if new == old:
                 break
+            old = new
+        for k, v in old.items():
+            if not v:
+                v.add('unknown')
+        self.roots[f] = old
 
     @staticmethod
     def _iter_keeps_fresh(it) -> bool:
@@ -261,7 +269,7 @@ class Effects:
         return False
 
     def _bind(self, f, target, r, value):
-        roots = self.roots[f]
+        roots = self._pass_target if getattr(self, '_pass_target', None) is not None else self.roots[f]
         if isinstance(target, ast.Name):
             roots.setdefault(target.id, set()).update(r)
         elif isinstance(target, (ast.Tuple, ast.List)):
@@ -269,7 +277,18 @@ class Effects:
             for t in target.elts:
                 self._bind(f, t.value if isinstance(t, ast.Starred) else t, r2, None)
 
+    def _assigned_names(self, f: FuncInfo) -> Set[str]:
+        cache = self.__dict__.setdefault('_assigned_cache', {})
+        if f not in cache:
+            cache[f] = {n.id for n in walk_local(f.node, include_root=False) if isinstance(n, ast.Name) and isinstance(n.ctx, ast.Store)}
+        return cache[f]
+
     def name_roots(self, f: FuncInfo, name: str) -> Set:
+        g = f
+        while g is not None:
+            if name not in self.roots[g] and name in self._assigned_names(g):
+                return set()       # a local that has no binding yet in this pass of the fix-point (never 'unknown')
+            g = g.parent
         g = f
         while g is not None:
             if name in self.roots[g]:
@@ -338,14 +357,18 @@ class Effects:
                     out.add('module')
                 elif not direct and not coll:
                     out.add('fresh')
+                    if any(a[0] in ('list', 'tuple') for a in self.ty.type_of(e)):
+                        out.add(('of', 'fresh'))       # a collection of parts of a fresh matcher object
             elif isinstance(x, tuple) and x[0] == 'of':
                 continue
             else:
                 out.add(x)
-        return out or {'unknown'}
+        return out or self._dflt()
 
-    @staticmethod
-    def _elements(base: Set) -> Set:
+    def _dflt(self) -> Set:
+        return set() if getattr(self, '_pass_target', None) is not None else {'unknown'}
+
+    def _elements(self, base: Set) -> Set:
         """Roots of the elements of a collection with roots `base`."""
         out = set()
         for x in base:
@@ -355,7 +378,7 @@ class Effects:
                 continue
             else:
                 out.add(x)
-        return out or {'unknown'}
+        return out or self._dflt()
 
     def expr_roots(self, f: FuncInfo, e) -> Set:
         self._cur_generic = f.module.name == 'verysimpletree.tree'
@@ -426,7 +449,7 @@ class Effects:
                 out = self._derive(self.expr_roots(f, e.func.value), e)
                 for a in e.args:
                     out |= {x for x in self.expr_roots(f, a) if x not in ('const', 'fresh') and not (isinstance(x, tuple) and x[0] == 'of')}
-                return out or {'unknown'}
+                return out or self._dflt()
             if isinstance(e.func, ast.Name):
                 if e.func.id == 'type' and len(e.args) == 1:
                     return {'class'}
@@ -439,7 +462,7 @@ class Effects:
                 out = set()
                 for a in e.args:
                     out |= {x for x in self.expr_roots(f, a) if x not in ('const', 'fresh')}
-                return out or {'unknown'}
+                return out or self._dflt()
             if isinstance(e.func, ast.Call):
                 # K(...)() or eval(..)()
                 inner = self.cg.by_node.get(e, [])
